@@ -53,7 +53,7 @@ func main() {
 				return
 			}
 			cfg := chansim.DrawConfig(r.Tape)
-			mode := chansim.Mode{Cuts: true, WriteFail: true, StaleWrites: true, ForkReload: 3, ForkResume: 1,
+			mode := chansim.Mode{Cuts: true, WriteFail: true, StaleWrites: true, ForkReload: 3, ForkResume: 1, ForgedRev: true,
 				MaxSteps: 50 + 30*r.Tape.CfgDraw(2), MaxHtlcs: 6}
 			r.Arm = "release-rule/" + cfg.TypeName
 			chansim.NewSim(r, cfg, mode).Run()
